@@ -1389,7 +1389,32 @@ func buildInline(s *inlineSite, pre string, info *types.Info, pkg *types.Package
 		}
 	}
 	ai := 0
+	// `h(g(..))` with g's results filling h's parameters: the results are received in temporaries first
+	tupleArg := ""
+	if len(s.call.Args) == 1 && sig.Params().Len() > 1 {
+		if tt, isT := info.TypeOf(s.call.Args[0]).(*types.Tuple); isT && tt.Len() == sig.Params().Len() && len(derefOf) == 0 {
+			tupleArg = text(s.call.Args[0].Pos(), s.call.Args[0].End())
+			k := 0
+			for _, f := range fd.Type.Params.List {
+				typ := typeText(f.Type)
+				names := f.Names
+				if len(names) == 0 {
+					binds = append(binds, bind{"_", typ, "\x00"})
+					k++
+					continue
+				}
+				for _, n := range names {
+					binds = append(binds, bind{n.Name, typ, "\x00"})
+					k++
+				}
+			}
+			ai = 1
+		}
+	}
 	for _, f := range fd.Type.Params.List {
+		if tupleArg != "" {
+			break
+		}
 		typ := typeText(f.Type)
 		if len(f.Names) == 0 {
 			if ai >= len(s.call.Args) {
@@ -1755,8 +1780,17 @@ func buildInline(s *inlineSite, pre string, info *types.Info, pkg *types.Package
 	sf, sl := lineOf(s.host.Pos())
 	open := func() {
 		b.WriteString("{\n")
+		var tupleTmps []string
 		for i, bd := range binds {
+			if bd.arg == "\x00" {
+				fmt.Fprintf(&b, "var %s_a%d %s\n", pre, i, bd.typ)
+				tupleTmps = append(tupleTmps, fmt.Sprintf("%s_a%d", pre, i))
+				continue
+			}
 			fmt.Fprintf(&b, "var %s_a%d %s = %s\n", pre, i, bd.typ, bd.arg)
+		}
+		if len(tupleTmps) > 0 {
+			fmt.Fprintf(&b, "%s = %s\n", strings.Join(tupleTmps, ", "), tupleArg)
 		}
 		for i, bd := range binds {
 			if bd.name == "_" {
@@ -1784,6 +1818,9 @@ func buildInline(s *inlineSite, pre string, info *types.Info, pkg *types.Package
 		}
 	}
 	out := map[string][]textEdit{}
+	if s.deferred && tupleArg != "" {
+		return nil, "deferred call with a tuple argument"
+	}
 	if s.deferred {
 		// arguments are evaluated now, the body runs as the deferred function
 		var d bytes.Buffer
